@@ -136,7 +136,11 @@ pub fn check_stroke(c: &StrokeCase) -> CheckResult {
     // the transform), so edges may disagree by ~0.2 px; a tolerance that is not scaled shows up as
     // disagreements of more than a pixel
     let curved = c.path.has_curves();
-    if (curved && worst > 140) || (!curved && (worst > 34 || differing > 8)) {
+    // polylines: the outline vertices of the two sides differ by f32 rounding only, but the rasteriser
+    // truncates vertices to the quarter-pixel grid, so a vertex sitting on a grid line can land one quarter
+    // pixel apart; the edge then moves by at most 1/4 px, i.e. 4 of a pixel's 16 samples (64/255), along
+    // its whole length.  (Found by the thorough tier: 12 pixels, worst 48/255.)
+    if (curved && worst > 140) || (!curved && worst > 80) {
         let i = (0..pa.len()).max_by_key(|i| (pa[*i] >> 24).abs_diff(pb[*i] >> 24)).unwrap();
         return Err(format!(
             "stroke under the similarity (angle {}, scale {}, translate {},{}) differs from stroking the transformed path with width, dashes and offset scaled by {}: {} pixels differ, worst at ({},{}): alpha {} vs {} (line width must scale with the transform)",
@@ -369,7 +373,7 @@ pub fn property(ctx: &Ctx) -> Property {
         rule: "part fill: random polygon/curve paths, every source kind, 28 modes, all invertible transform classes: fill under T must equal, bit for bit, filling Path::transform(T) of the path under the identity with the source's transform preceded by T^-1 (sources live in user space). part stroke: polylines stroked (all caps/joins/dashes) under a similarity must match stroking the transformed polyline with width, dashes and offset scaled (line width scales with T) up to one quarter-sample flip per edge. part singular: every drawing call except mask/clear under non-invertible T changes nothing. part device: push_clip_rect (probed by an identity-transform fill), mask geometry with solid sources, copy_surface, blend_surface, blend_surface_with_alpha give identical pixels under any T. part restore: get_transform() is bit-equal after clear() and pop_layer (with/without clip) and a following draw equals the draw with T re-set. Non-trivial: T not identity/integer translation (fill), scale away from 1 (stroke), non-identity T (device/restore); distinct by hash of the case.",
         assumptions: vec![
             "mask() under a singular transform is not judged (the statement allows both readings)",
-            "stroke part: the two sides differ by f32 rounding of positions; alpha differences up to 34/255 on at most 8 pixels are accepted",
+            "stroke part: the two sides differ by f32 rounding of positions, which the quarter-pixel vertex truncation can amplify to 1/4 px: alpha differences up to 80/255 (polylines) resp. 140/255 (curves, 0.2 px flattening difference) per pixel are accepted; a width that does not scale differs by 255 on whole bands",
             "the semantic positioning of image/gradient sources under random CTMs is judged by C12/C13",
         ],
         parts: vec![
